@@ -1,5 +1,6 @@
 mod bfs;
 mod checks;
+mod counters;
 mod ev;
 mod refmodel;
 mod util;
@@ -21,14 +22,22 @@ fn main() {
             tier = t;
         }
     }
+    if tier != "quick" && tier != "thorough" {
+        usage();
+    }
     util::silence_panics();
-    let code = match id {
-        "C20" => {
-            let run = ev::Run::new("C20", &tier, "exploration");
-            checks::c20::run(&run);
-            run.finish()
-        }
+    use checks::codec::Mode;
+    let mc = "model_checking";
+    let ex = "exploration";
+    let (level, f): (&str, Box<dyn Fn(&ev::Run)>) = match id {
+        "C01" => (mc, Box::new(|r| checks::codec::run(r, Mode::C01))),
+        "C06" => (mc, Box::new(|r| checks::c06::run(r))),
+        "C07" => (mc, Box::new(|r| checks::codec::run(r, Mode::C07))),
+        "C08" => (mc, Box::new(|r| checks::codec::run(r, Mode::C08))),
+        "C20" => (ex, Box::new(|r| checks::c20::run(r))),
         _ => usage(),
     };
-    std::process::exit(code);
+    let run = ev::Run::new(id, &tier, level);
+    f(&run);
+    std::process::exit(run.finish());
 }
